@@ -886,9 +886,17 @@ impl<'info> Evaluator {
                 prog_args,
             ))))
         } else if call.name == "com".as_bytes() {
+            let to_compile = if let Some(a) = arguments_to_convert.first() {
+                a.to_sexp()
+            } else {
+                return Err(CompileErr(
+                    call.loc.clone(),
+                    "com requires an expression to compile".to_string(),
+                ));
+            };
             let mut end_of_list = Rc::new(SExp::Cons(
                 call.loc.clone(),
-                arguments_to_convert[0].to_sexp(),
+                to_compile,
                 Rc::new(SExp::Nil(call.loc.clone())),
             ));
 
